@@ -118,7 +118,8 @@ def _gen_design_client(r, scale_exp, family):
         ops.append({"op": "legal_verdicts"})
     if edge and edge["kind"] == "near_equal_regions":
         ops.insert(2 if have_die else 1, {"op": "split", "r": r.choice([2, 3]), "n": r.randint(3, 5)})
-    return {"kind": "design", "die": die, "net": nl, "edge": edge, "ops": ops}
+    return {"kind": "design", "die": die, "net": nl, "edge": edge, "ops": ops,
+            "yaml_style": r.weighted([(None, 6), ("header11", 2), ("yes", 2)])}
 
 
 def _gen_matrix(r):
@@ -412,12 +413,18 @@ class _DesignClient:
         self.net = self.die = self.alloc = self.model = None
         self.nfile = 0
         self.dead = False
+        self.yaml_style = c.get("yaml_style")
 
     def _src(self, tree, via, stem):
         U = _m["U"]
         if via == "tree":
             return tree
         text = U.write_yaml(tree)
+        style = getattr(self, "yaml_style", None)
+        if style == "header11":
+            text = "%YAML 1.1\n---\n" + text      # a document that declares the older YAML version
+        elif style == "yes":
+            text = text.replace(": true", ": yes")   # hand-written booleans (strings under YAML 1.2: the loader must reject them)
         if via == "text":
             return text if (": " in text or "\n" in text) else tree
         # a flow that handles several designs reuses its scratch file names: every client writes its document under the
